@@ -10,7 +10,7 @@ import (
 func init() {
 	register(&Spec{
 		ID:          "C19",
-		Loads:       []LoadSpec{{Patterns: []string{"./routing", "./routing/route"}}},
+		Loads:       []LoadSpec{{Patterns: []string{"./routing", "./routing/route", "./graph/db/models"}}},
 		Explanation: "Decides the shape of the checks a returned route depends on: an edge is selected only if the amount it must carry (net amount plus the capped inbound fee) is within capacity / max / min HTLC and, for local channels, within the available bandwidth, and (network) the policy is enabled; the search adopts a predecessor only below the fee-limit, zero-probability, CLTV-limit, minimum-probability and onion-size checks, all evaluated on the amount computed after the non-negative node fee clamp; the clamp has one form in edge selection and in the search; newRoute recomputes per-hop amounts and time locks with the same fee functions and deltas and hands their totals to the route; the route's fee accessors are differences of per-hop amounts.",
 		NotDecided: []string{
 			"that a returned route satisfies every hop's policy on arbitrary graphs (backward accumulation with integer rounding)", "probability estimation and mission control", "bandwidth races between route computation and HTLC dispatch",
@@ -211,6 +211,7 @@ func runC19(r *an.Run) {
 				if c != "edge.policy.TimeLockDelta" {
 					o.FailAt(pe.ID+"#timelock-delta", s.Where(), "the time lock delta is %s", c)
 				}
+				guarded(o, pe, s, an.Cmp(an.Param(0), an.NE, an.LocalNamed("source"), "fromVertex != source"))
 			}
 			// recorded state
 			for _, cl := range p.CompositeLitsOf(p.LookupType("routing", "nodeWithDist")) {
@@ -330,7 +331,7 @@ func runC19(r *an.Run) {
 		})
 
 	r.Obl("route-recomputation", "ROLE",
-		"newRoute: a non-final hop forwards the next hop's incoming amount; its fee is ComputeFee of the outgoing edge on that amount plus the inbound fee of the incoming edge on (amount + outbound fee), floored at zero; the amount entering the hop is amount + fee; the time lock handed to the hop is the running total, which then grows by the outgoing edge's TimeLockDelta; the totals given to NewRouteFromHops are the first hop's incoming amount and the final running time lock; Route.TotalFees / HopFee / ReceiverAmt are differences of those per-hop amounts",
+		"newRoute: a non-final hop forwards the next hop's incoming amount; its fee is ComputeFee of the outgoing edge on that amount plus the inbound fee of the incoming edge on (amount + outbound fee), floored at zero; the amount entering the hop is amount + fee; the time lock handed to the hop is the running total, which then grows by the outgoing edge's TimeLockDelta; the totals given to NewRouteFromHops are the first hop's incoming amount and the final running time lock; Route.TotalFees / HopFee / ReceiverAmt are differences of those per-hop amounts; a channel update applied to a hint edge (UpdateAdditionalEdge) replaces every policy term the fee and time lock computations read, after its signature verified",
 		"a route whose stated totals differ from the sum of its hops pays a different fee than pathfinding accepted, or is rejected by the first node", 12,
 		func(o *an.Obl) {
 			f := p.Func(rt + "newRoute")
@@ -379,6 +380,55 @@ func runC19(r *an.Run) {
 					o.FailAt(f.ID+"#no-"+name, f.Where(f.Body.Pos()), "cannot find the computation of %s", name)
 				}
 			}
+			// the floor of the hop fee exists (final hop: 0; other hops: 0 below fee < 0)
+			nZero := 0
+			for _, v := range f.Graph().V {
+				if x, ok := v.Node.(*ast.AssignStmt); ok && len(x.Lhs) == 1 && an.Text(x.Lhs[0]) == "fee" && an.Text(x.Rhs[0]) == "0" {
+					nZero++
+				}
+			}
+			if nZero != 2 {
+				o.FailAt(f.ID+"#fee-floor", f.Where(f.Body.Pos()), "expected two places that set the hop fee to zero (final hop, negative total floored), found %d", nZero)
+			}
+			// order inside one iteration: a forwarding hop is handed the running
+			// time lock before its own delta is added; the final hop is handed
+			// the total including the final delta
+			ast.Inspect(f.Body, func(n ast.Node) bool {
+				blk, ok := n.(*ast.BlockStmt)
+				if !ok {
+					return true
+				}
+				handed, grown, final := -1, -1, false
+				for i, st := range blk.List {
+					ast.Inspect(st, func(m ast.Node) bool {
+						if _, nested := m.(*ast.BlockStmt); nested && m != st {
+							// if/else around the final delta belongs to this level
+						}
+						if as, ok := m.(*ast.AssignStmt); ok && len(as.Lhs) == 1 && len(as.Rhs) == 1 {
+							l, rh := an.Text(as.Lhs[0]), an.Text(as.Rhs[0])
+							if l == "outgoingTimeLock" && rh == "totalTimeLock" && handed < 0 {
+								handed = i
+							}
+							if l == "totalTimeLock" && as.Tok.String() == "+=" && grown < 0 {
+								grown = i
+								final = !strings.Contains(rh, "TimeLockDelta")
+							}
+						}
+						return true
+					})
+				}
+				if handed < 0 || grown < 0 {
+					return true
+				}
+				o.Site("time lock order in block at %s: handed=%d grown=%d final=%v", f.Where(blk.Pos()), handed, grown, final)
+				if final && handed < grown {
+					o.FailAt(f.ID+"#final-timelock-order", f.Where(blk.Pos()), "the final hop is handed the time lock before the final delta is added")
+				}
+				if !final && grown < handed {
+					o.FailAt(f.ID+"#hop-timelock-order", f.Where(blk.Pos()), "a forwarding hop is handed the time lock after its own delta was added: it would have to forward with its incoming expiry")
+				}
+				return true
+			})
 			nr := f.Calls(an.CalleeNamed("NewRouteFromHops"), false)
 			if need(o, f, "NewRouteFromHops", nr, 1) {
 				c := nr[0].Node.(*ast.CallExpr)
@@ -410,6 +460,40 @@ func runC19(r *an.Run) {
 					}
 				}
 			}
+			// HopFee: incoming amount of hop i is the previous hop's forwarded
+			// amount (the route total for the first), minus what hop i forwards
+			hf := p.Func(rr + "HopFee")
+			wantHF := map[string][]string{
+				"incomingAmt": {"$recv.TotalAmount", "$recv.Hops[($p0 - 1)].AmtToForward"},
+				"outgoingAmt": {"$recv.Hops[$p0].AmtToForward"},
+			}
+			for name, want := range wantHF {
+				ss := hf.Assigns(an.LocalNamed(name), false)
+				if !need(o, hf, name, ss, len(want)) {
+					continue
+				}
+				for _, s := range ss {
+					c := hf.Canon(s.Node.(*ast.AssignStmt).Rhs[0])
+					o.Site("HopFee %s = %s", name, c)
+					ok := false
+					for _, w := range want {
+						ok = ok || c == w
+					}
+					if !ok {
+						o.FailAt(hf.ID+"#"+name, s.Where(), "HopFee takes %s from %s, expected one of %v", name, c, want)
+					}
+					if c == "$recv.TotalAmount" {
+						guarded(o, hf, s, an.Cmp(an.Param(0), an.EQ, an.IntConst(0), "hopIndex == 0"))
+					}
+				}
+			}
+			for _, s := range hf.Returns() {
+				c := an.Text(s.Node.(*ast.ReturnStmt).Results[0])
+				o.Site("HopFee returns %s", c)
+				if c != "0" && c != "incomingAmt - outgoingAmt" && c != "incomingAmt - r.ReceiverAmt()" {
+					o.FailAt(hf.ID+"#returns", s.Where(), "HopFee returns %s", c)
+				}
+			}
 			for id, want := range map[string][]string{
 				rr + "TotalFees":   {"0", "($recv.TotalAmount - $recv.ReceiverAmt())"},
 				rr + "ReceiverAmt": {"0", "$recv.Hops[(len($recv.Hops) - 1)].AmtToForward"},
@@ -422,6 +506,60 @@ func runC19(r *an.Run) {
 						o.FailAt(id+"#returns", s.Where(), "%s returns %s", id, c)
 					}
 				}
+			}
+		})
+
+	r.Obl("hint-edge-update-replaces-all-terms", "TABLE",
+		"paymentSession.UpdateAdditionalEdge returns true only after VerifyChannelUpdateSignature(msg, pubKey) succeeded and after policy.TimeLockDelta, policy.FeeBaseMSat and policy.FeeProportionalMillionths (the terms ComputeFee and the time lock computation read) were each assigned from the update's TimeLockDelta, BaseFee and FeeRate",
+		"a hint edge that keeps a stale term after the forwarding node announced a new policy is priced wrongly on every retry: the hop is left less than its policy demands", 4,
+		func(o *an.Obl) {
+			f := p.Func("routing.paymentSession.UpdateAdditionalEdge")
+			var succ []an.Site
+			for _, s := range f.Returns() {
+				if an.Text(s.Node.(*ast.ReturnStmt).Results[0]) == "true" {
+					succ = append(succ, s)
+				}
+			}
+			if !need(o, f, "success return", succ, 1) {
+				return
+			}
+			vs := f.Calls(an.CalleeIs("netann.VerifyChannelUpdateSignature"), false)
+			mustPass(o, f, "VerifyChannelUpdateSignature", vs, an.OkErrNil, succ)
+			for _, v := range vs {
+				if a := f.ArgCanon(v); a[0] != "$p0" || a[1] != "$p1" {
+					o.FailAt(f.ID+"#verify-args", v.Where(), "the signature is verified as (%s, %s)", a[0], a[1])
+				}
+			}
+			// the terms the fee formula reads
+			cf := p.Func("graph/db/models.CachedEdgePolicy.ComputeFee")
+			terms := map[string]string{"TimeLockDelta": "$p0.TimeLockDelta"}
+			ast.Inspect(cf.Body, func(n ast.Node) bool {
+				if sel, ok := n.(*ast.SelectorExpr); ok {
+					if id, ok := sel.X.(*ast.Ident); ok && id.Name == "c" {
+						terms[sel.Sel.Name] = ""
+					}
+				}
+				return true
+			})
+			src := map[string]string{"TimeLockDelta": "$p0.TimeLockDelta", "FeeBaseMSat": "lnwire.MilliSatoshi($p0.BaseFee)", "FeeProportionalMillionths": "lnwire.MilliSatoshi($p0.FeeRate)"}
+			for t := range terms {
+				want, ok := src[t]
+				if !ok {
+					o.FailAt(f.ID+"#unknown-term-"+t, "", "ComputeFee reads policy.%s, which the table of update terms does not cover", t)
+					continue
+				}
+				as := f.Assigns(an.Field("graph/db/models.CachedEdgePolicy", t, nil), false)
+				o.Site("term %s: %d assignments", t, len(as))
+				if len(as) == 0 {
+					o.FailAt(f.ID+"#stale-"+t, f.Where(f.Body.Pos()), "the update does not replace policy.%s", t)
+					continue
+				}
+				for _, a := range as {
+					if c := f.Canon(a.Node.(*ast.AssignStmt).Rhs[0]); c != want {
+						o.FailAt(f.ID+"#source-of-"+t, a.Where(), "policy.%s is set from %s, expected %s", t, c, want)
+					}
+				}
+				before(o, f, "assignment of policy."+t, as, "success return", succ)
 			}
 		})
 
@@ -505,4 +643,6 @@ func runC19(r *an.Run) {
 				}
 			}
 		})
+
+	onionPayloadEstimate(r)
 }
